@@ -110,15 +110,16 @@ Proof.
              ltac:(vm_compute; discriminate)).
   vm_compute. reflexivity.
 Qed.
-(* ODD: a well-formed element with SEVEN pairwise suites (the standard allows any number) is refused: six are
-   kept, the seventh (00-0F-AC-0A) is then read as the AKM count 0x0F00, which does not fit *)
+(* a well-formed element with SEVEN pairwise suites: the first six are kept and the key-management list that
+   follows the seventh is still found (before the repair of finding F43 the seventh suite was read as a count) *)
 Example c08_rsn_decode_exact_instance_seven :
-  get_rsn_info (rd_strict sevenbuf) 2 46 = Done (Err (-22)) /\ zlen rsn_seven = 44.
+  (exists i, get_rsn_info (rd_strict sevenbuf) 2 46 = Done (Ok i) /\ List.length (r_pairwise i) = 6%nat /\
+             r_akms i = [([0; 15; 172], 2)]) /\ zlen rsn_seven = 44.
 Proof.
   split; [|vm_compute; reflexivity]. change 46 with (2 + 44).
   rewrite (c08_rsn_decode_exact sevenbuf _ 2 44 wf_sevenbuf (agrees_strict _) ltac:(lia) ltac:(lia)
              ltac:(vm_compute; discriminate)).
-  vm_compute. reflexivity.
+  vm_compute. eexists. split; [reflexivity|]. split; reflexivity.
 Qed.
 
 (* ---------- c08_wpa_decode_exact ---------- *)
